@@ -104,14 +104,15 @@ Proof. induction items as [|x r IH]; intros i ret L R; cbn [read_uint_loop le_va
 Lemma read_uint_p_small p data size : (size <= 8)%nat ->
   read_uint_p p data size = match Script.read_uint data size with SOk n => Val n | SErr _ => Fail (E "early") end.
 Proof. intros H. unfold read_uint_p, Script.read_uint. destruct (Nat.ltb_spec (length data) size); [reflexivity|].
+  destruct (Nat.ltb_spec 8 size); [lia|].
   rewrite read_uint_loop_small; [f_equal; cbn; lia| |cbn; lia]. rewrite firstn_length. cbn. lia. Qed.
-Lemma read_uint_p_total p data size w : known_F19 data size = false -> read_uint_p p data size <> Panic w.
-Proof. unfold known_F19. intros K. destruct (Nat.leb_spec 9 size) as [L9|L9].
-  - cbn [andb] in K. apply Nat.leb_gt in K. unfold read_uint_p. destruct (Nat.ltb_spec (length data) size); [discriminate|lia].
-  - rewrite read_uint_p_small by lia. destruct (Script.read_uint data size); discriminate. Qed.
-Lemma read_uint_p_refuted : read_uint_p Debug (repeat x01 9) 9 = Panic WShl /\ known_F19 (repeat x01 9) 9 = true
-  /\ exists n, read_uint_p Release (repeat x01 9) 9 = Val n /\ n <> le_val (repeat x01 9).
-Proof. split; [reflexivity|split; [reflexivity|]]. eexists. split; [vm_compute; reflexivity|vm_compute; discriminate]. Qed.
+(* since fc1698d an oversized `size` is the error NumericOverflow: no shift can overflow any more, in either profile *)
+Lemma read_uint_p_total p data size w : read_uint_p p data size <> Panic w.
+Proof. destruct (Nat.leb_spec size 8) as [L|L].
+  - rewrite read_uint_p_small by lia. destruct (Script.read_uint data size); discriminate.
+  - unfold read_uint_p. destruct (_ <? size)%nat; [discriminate|]. destruct (Nat.ltb_spec 8 size); [discriminate|lia]. Qed.
+Lemma read_uint_p_oversize p data size : (8 < size)%nat -> (size <= length data)%nat -> read_uint_p p data size = Fail (E "overflow").
+Proof. intros L1 L2. unfold read_uint_p. destruct (Nat.ltb_spec (length data) size); [lia|]. destruct (Nat.ltb_spec 8 size); [reflexivity|lia]. Qed.
 
 (* ------------------------------------------------------------------------------------------------ pegin / pegout / minimum_value *)
 Lemma from_pegin_witness_total w x : from_pegin_witness w <> Panic x.
@@ -225,22 +226,14 @@ Proof. unfold blind_select. fold (nblind outs). intros H.
 Lemma blind_select_nothing_marked : blind_select [ {| bo_fee := true; bo_marked := false; bo_addr := false |} ] = Fail (E "toofew"). Proof. reflexivity. Qed.
 
 (* ------------------------------------------------------------------------------------------------ fee sums *)
-Lemma fee_sum_release vals : forall acc w, fee_sum Release vals acc <> Panic w.
-Proof. induction vals as [|v r IH]; intros acc w; cbn [fee_sum]; [discriminate|]. destruct (_ <? _); apply IH. Qed.
-Lemma fee_sum_debug vals : forall acc, acc < 2 ^ 64 ->
-  (fee_sum Debug vals acc = Panic WAdd /\ 2 ^ 64 <= acc + fold_right N.add 0 vals) \/
-  (fee_sum Debug vals acc = Val (acc + fold_right N.add 0 vals) /\ acc + fold_right N.add 0 vals < 2 ^ 64).
+(* the saturating sum is the true sum capped at u64::MAX: exact below 2^64, and monotone, so comparing it with any threshold below
+   u64::MAX answers as the true sum would *)
+Lemma fee_sum_spec vals : forall acc, acc <= U64_MAX -> fee_sum vals acc = N.min (acc + fold_right N.add 0 vals) U64_MAX.
 Proof. induction vals as [|v r IH]; intros acc H; cbn [fee_sum fold_right].
-  - right. split; [f_equal; lia|lia].
-  - destruct (N.ltb_spec (acc + v) (2 ^ 64)) as [L|G].
-    + destruct (IH (acc + v) L) as [[E B]|[E B]]; [left|right]; (split; [exact E|lia]) || (split; [rewrite E; f_equal; lia|lia]).
-    + left. split; [reflexivity|lia]. Qed.
-Lemma fee_in_panic_iff outs asset : (exists w, fee_in Debug outs asset = Panic w) <-> known_F17 outs asset = true.
-Proof. unfold fee_in, known_F17. destruct (fee_sum_debug (map snd (filter (fun o => fst o =? asset) outs)) 0 ltac:(lia)) as [[E B]|[E B]]; rewrite E.
-  - split; [intros _; apply N.leb_le; lia|eauto].
-  - split; [intros [w H]; discriminate|]. intros K. apply N.leb_le in K. lia. Qed.
-Lemma fee_in_refuted : fee_in Debug [(3, 18446744073709551615); (3, 1)] 3 = Panic WAdd /\ fee_in Release [(3, 18446744073709551615); (3, 1)] 3 = Val 0.
-Proof. split; reflexivity. Qed.
+  - rewrite N.add_0_r. symmetry. apply N.min_l. exact H.
+  - rewrite IH by (unfold sat_add; apply N.le_min_r). unfold sat_add. unfold U64_MAX in *. lia. Qed.
+Lemma fee_in_spec outs asset : fee_in outs asset = Val (N.min (fold_right N.add 0 (map snd (filter (fun o => fst o =? asset) outs))) U64_MAX).
+Proof. unfold fee_in. rewrite fee_sum_spec by (unfold U64_MAX; lia). reflexivity. Qed.
 
 (* ------------------------------------------------------------------------------------------------ commitments from slices *)
 Lemma from_commitment_p_total pt_ok sl w : from_commitment_p pt_ok sl <> Panic w.
